@@ -149,6 +149,7 @@ Proof.
     destruct (N.eq_dec k' k) as [->|Hn]; [rewrite upd_same in H; discriminate|].
     rewrite upd_other in H by assumption. fold (pending_of (close s k) k') in H.
     destruct (close_pending s k k') as [E|E]; rewrite E in H; [left; exact H|discriminate].
+  - (* ESetRecord *) destruct (clients s x); split; try (cbn; lia); intros k' n H; left; exact H.
 Qed.
 
 Lemma step_pend_inv v s e : pend_inv s -> pend_inv (fst (step v s e)).
